@@ -1698,29 +1698,37 @@ func parseCertificate(in *certificate) (*Certificate, error) {
 				// RFC 5280, 4.2.1.3
 				var usageBits asn1.BitString
 				_, err := asn1.Unmarshal(e.Value, &usageBits)
-
-				if err == nil {
-					var usage int
-					for i := 0; i < 9; i++ {
-						if usageBits.At(i) != 0 {
-							usage |= 1 << uint(i)
-						}
+				if err != nil {
+					if asn1.AllowPermissiveParsing {
+						continue
 					}
-					out.KeyUsage = KeyUsage(usage)
-					continue
+					return nil, err
 				}
+
+				var usage int
+				for i := 0; i < 9; i++ {
+					if usageBits.At(i) != 0 {
+						usage |= 1 << uint(i)
+					}
+				}
+				out.KeyUsage = KeyUsage(usage)
+				continue
 			case 19:
 				// RFC 5280, 4.2.1.9
 				var constraints basicConstraints
 				_, err := asn1.Unmarshal(e.Value, &constraints)
-
-				if err == nil {
-					out.BasicConstraintsValid = true
-					out.IsCA = constraints.IsCA
-					out.MaxPathLen = constraints.MaxPathLen
-					out.MaxPathLenZero = out.MaxPathLen == 0
-					continue
+				if err != nil {
+					if asn1.AllowPermissiveParsing {
+						continue
+					}
+					return nil, err
 				}
+
+				out.BasicConstraintsValid = true
+				out.IsCA = constraints.IsCA
+				out.MaxPathLen = constraints.MaxPathLen
+				out.MaxPathLenZero = out.MaxPathLen == 0
+				continue
 			case 17:
 				out.OtherNames, out.DNSNames, out.EmailAddresses,
 					out.URIs, out.DirectoryNames, out.EDIPartyNames,
